@@ -300,13 +300,10 @@ theorem start_counts (s : St) (i : Nat) (c : Copy) (hc : s.copies[i]? = some c)
   simp only [start, hc, hfree, Bool.false_eq_true, if_false]
   exact ⟨_, rfl, rfl, rfl, rfl, sharedLen_updCopy_succ _ _ _ c hc (fun c => by simp)⟩
 
-/-- Each execution reads its own result: if no record of the job carries the identifier of the pending
-execution `e` (which `uids_distinct` provides for records of other executions of the class, as avocado
-reports a task under its own identifier), then the record `finish` looks up and files in the node's
-results is the one this execution reported — promptly or during the polling loop.
-PARTIAL: the freshness hypothesis is stated for the single step; lifting it over whole runs (the invariant
-"no pending execution has a record yet") is not mechanised. -/
-theorem own_result_read_partial (s : St) (j : Nat) (e : Exec) (c : Copy) (st : String) (t d : Nat)
+/-- one resumption: if no record of the job carries the identifier of the pending execution `e`, then the
+record `finish` looks up and files in the node's results is the one this execution reported — promptly or
+during the polling loop (the freshness hypothesis is discharged over whole runs by `own_result_read`) -/
+theorem own_result_read_step (s : St) (j : Nat) (e : Exec) (c : Copy) (st : String) (t d : Nat)
     (hp : s.pending[j]? = some e) (hc : s.copies[e.copy]? = some c)
     (hfresh : ∀ x ∈ s.job, ¬ (x.name = e.name ∧ x.uid = e.uid))
     (hvis : d < statusTimeout) (hunk : unknownOf e.name ∈ c.results) :
@@ -325,6 +322,46 @@ theorem own_result_read_partial (s : St) (j : Nat) (e : Exec) (c : Copy) (st : S
     simp only [settle, Outcome.delay, hd', Bool.false_eq_true, if_false, arrive, lookup_fresh_none _ _ _ hfresh,
       hpos, hvis, decide_true, if_true, lookup_append_fresh _ _ _ _ _ hfresh, record, hcont]
     exact ⟨_, rfl⟩
+
+/-- **Each execution reads its own result**, over whole runs: in every state reachable by ANY sequence of
+events (interleaved executions of the copies, prompt/late/never reported results, replays, creation
+attempts) from a state without executions and job records, a pending execution has no job record under its
+(name, uid) yet — so the lookup of `run_test_node`, the FIRST record with this (name, uid), finds nothing
+before this execution reports and exactly the record this execution reports afterwards, never a stale one.
+`ClassOK`: copies with equal names have equal prefixes; `PreSep`: pre-nodes are named differently from the
+nodes of the class.  (Analogue of `I2N.Props.C03.own_result_read` on the rule-level machine.) -/
+theorem own_result_read (s0 : St) (evs : List Event) (hi : s0.issued = []) (hp : s0.pending = []) (hj : s0.job = [])
+    (hc : ClassOK s0.copies) (hsep : PreSep s0.copies) :
+    ∀ e ∈ (run s0 evs).1.pending,
+      lookupJob (run s0 evs).1.job e.name e.uid = none ∧
+      ∀ st t, lookupJob ((run s0 evs).1.job ++ [{ name := e.name, uid := e.uid, status := st, time := t }])
+          e.name e.uid = some { name := e.name, uid := e.uid, status := st, time := t } := by
+  have hinv0 : ReadInv s0 :=
+    ⟨⟨by simp [hi], by simp [hi], by simp [hi]⟩, by simp [hp], by simp [hp], by simp [hj], by simp [hp]⟩
+  have hinv := run_readInv s0 evs hc hsep hinv0
+  intro e he
+  have hfresh : ∀ x ∈ (run s0 evs).1.job, ¬ (x.name = e.name ∧ x.uid = e.uid) :=
+    fun x hx h => hinv.pendFresh e he ⟨x, hx, h.1, h.2⟩
+  exact ⟨lookup_fresh_none _ _ _ hfresh, fun st t => lookup_append_fresh _ _ _ _ _ hfresh⟩
+
+/-- … and the resumption of a pending execution in any reachable state files, on its copy, exactly the
+record it reported (promptly or within the polling window).
+PARTIAL only in that the placeholder of the pending execution is assumed to be still in its copy's results
+(`hc`, `hunk`; otherwise Python's `list.remove` would raise) — the correspondence checks that (results
+ledger), it is not mechanised. -/
+theorem own_result_filed_partial (s0 : St) (evs : List Event) (hi : s0.issued = []) (hp : s0.pending = [])
+    (hj : s0.job = []) (hcl : ClassOK s0.copies) (hsep : PreSep s0.copies)
+    (j : Nat) (e : Exec) (c : Copy) (st : String) (t d : Nat)
+    (hpe : (run s0 evs).1.pending[j]? = some e) (hc : (run s0 evs).1.copies[e.copy]? = some c)
+    (hunk : unknownOf e.name ∈ c.results) (hvis : d < statusTimeout) :
+    ∃ status, (finish (run s0 evs).1 j (.reported st t d)).2 =
+      .finished e (.reported st t d) (some { name := e.name, uid := e.uid, status := st, time := t }) status := by
+  have hinv0 : ReadInv s0 :=
+    ⟨⟨by simp [hi], by simp [hi], by simp [hi]⟩, by simp [hp], by simp [hp], by simp [hj], by simp [hp]⟩
+  have hinv := run_readInv s0 evs hcl hsep hinv0
+  have he : e ∈ (run s0 evs).1.pending := List.mem_of_getElem? hpe
+  exact own_result_read_step _ j e c st t d hpe hc
+    (fun x hx h => hinv.pendFresh e he ⟨x, hx, h.1, h.2⟩) hvis hunk
 
 /-- Creation attempts (`traverse_terminal_node`, /repo ≥ 7ba7970) — along ANY sequence of events, in
 particular any number of creation attempts of one object root copy with any outcomes of the pre-step
@@ -437,6 +474,7 @@ example : ((run classEx [.start 0, .start 1, .finish 0 (.reported "FAIL" 1 0), .
     [("t.nets.localhost.net2", "1r3"), ("t.nets.localhost.net1", "1r2"), ("t.nets.localhost.net2", "1r1"),
      ("t.nets.localhost.net1", "1")] := by decide
 
+example : PreSep classEx.copies := by unfold PreSep; decide
 example : PreNamesInj classEx.copies := by
   intro i j p q hp hq h
   match i, j with
@@ -447,6 +485,12 @@ example : PreNamesInj classEx.copies := by
   | 0, j + 2 => simp [preStatics, classEx] at hq
   | 1, j + 2 => simp [preStatics, classEx] at hq
   | i + 2, _ => simp [preStatics, classEx] at hp
+
+/-- non-vacuity of `own_result_read`: a reachable state with two executions in flight and records of finished
+executions and of a failed creation attempt in the job result -/
+example : let s := (run classEx [.start 0, .finish 0 (.reported "FAIL" 1 0), .create 1 (.reported "ERROR" 1 0),
+      .start 0, .start 1]).1
+    (s.pending.map (fun e => e.uid), s.job.map (fun x => x.uid)) = (["1r2", "1r3"], ["1", "0"]) := by decide
 
 /-- three creation attempts of copy 0 (failed, never reported, passed), one of copy 1 in between: distinct
 pre-step identifiers `0`, `0r1`, `0r2`, each attempt reads its own result, and the main execution starts
